@@ -353,8 +353,19 @@ void QXmppOutgoingClient::_q_socketDisconnected()
     if (d->nextAddressState == QXmppOutgoingClientPrivate::TryNext) {
         d->connectToNextAddress();
     } else if (d->redirect) {
-        d->connectToHost({ ServerAddress::Tcp, d->redirect->host, d->redirect->port });
+        // the session (if any) ends with the connection it was negotiated on
+        if (d->sessionStarted) {
+            closeSession();
+        }
+        // Do not reconnect from within the socket's disconnected() handler: QSslSocket finishes
+        // tearing down the old (TLS) connection after the signal and the new one would never start.
+        const auto redirect = *d->redirect;
         d->redirect.reset();
+        QMetaObject::invokeMethod(
+            this, [this, redirect]() {
+                d->connectToHost({ ServerAddress::Tcp, redirect.host, redirect.port });
+            },
+            Qt::QueuedConnection);
     } else {
         closeSession();
     }
